@@ -60,6 +60,8 @@ pub struct Profile {
     pub calls_control_only: bool,
     /// chance (of 256) that an infix operator is drawn from {+, -, *, *} instead of all 20
     pub poly_bias: u32,
+    /// only input and output signals (C09 domain)
+    pub no_intermediate: bool,
 }
 
 #[derive(Clone, Debug)]
@@ -98,6 +100,7 @@ impl Profile {
             signal_conditions: false,
             calls_control_only: false,
             poly_bias: 0,
+            no_intermediate: false,
         }
     }
     pub fn sem(template: bool, prime: BigUint) -> Profile {
@@ -127,6 +130,7 @@ impl Profile {
             signal_conditions: true,
             calls_control_only: false,
             poly_bias: 50,
+            no_intermediate: false,
         }
     }
 }
@@ -1043,7 +1047,7 @@ impl<'a, 'b> Gen<'a, 'b> {
             // signal declarations first (top level)
             let nsig = 1 + self.t.below(4);
             for s in 0..nsig {
-                let kind = match self.t.below(3) {
+                let kind = match self.t.below(if self.p.no_intermediate { 2 } else { 3 }) {
                     0 => SigKind::Input,
                     1 => SigKind::Output,
                     _ => SigKind::Intermediate,
